@@ -1,6 +1,6 @@
 SPECIFICATION Spec
 CONSTANTS N = 2 MaxCalls = 2
-Menu = {"marshal", "bytes", "struct", "recompose"}
+Menu = {"marshal", "bytes", "struct"}
 Copies = {"json", "marshal", "bytes", "parse", "struct"}
 LockedLookup = TRUE PreRegistered = TRUE ExclusivePool = TRUE Gran = "fine"
 INVARIANTS Exclusive BufferIsolation NoUnlockedWriteRead SequentialEquivalence
